@@ -55,21 +55,31 @@ def geo_mean(xs) -> Fraction:
 class RefWorld:
     """My own copy of the squeeth frame and of the pool's price path."""
 
-    def __init__(self, sq_mw: dict, pool_mw: dict):
-        self.eth = _ffill([None if x is None else F(x) for x in sq_mw["WETH"]])
-        self.osq = _ffill([None if x is None else F(x) for x in sq_mw["OSQTH"]])
-        self.nf_ = _ffill([None if x is None else F(x) for x in sq_mw["norm_factor"]])
+    def __init__(self, sq_mw: dict, pool_mw: dict, first_minute_of_bar=None, bar_minutes: int = 1):
+        """first_minute_of_bar: for a resampled run, the raw minute index at which each bar (bin) starts; the squeeth
+        frame and the pool's price column are resampled with 'first', so bar b carries the values of that minute.
+        bar_minutes: distance between two bar labels (the window is a span of time, not a number of rows)."""
+        eth = _ffill([None if x is None else F(x) for x in sq_mw["WETH"]])
+        osq = _ffill([None if x is None else F(x) for x in sq_mw["OSQTH"]])
+        nf_ = _ffill([None if x is None else F(x) for x in sq_mw["norm_factor"]])
         ticks = _ffill([None if t is None else int(t) for t in pool_mw["closeTick"]])
         opens = pool_mw.get("openTick") or ticks
         first = opens[0] if opens[0] is not None else ticks[0]
-        # the pool's price at bar i is the previous bar's close (first bar: its open)
-        self.price_tick = [int(first)] + ticks[:-1]
+        # the pool's price at minute i is the previous minute's close (first minute: its open)
+        price_tick = [int(first)] + ticks[:-1]
+        idx = list(range(len(eth))) if first_minute_of_bar is None else list(first_minute_of_bar)
+        self.eth = [eth[i] for i in idx]
+        self.osq = [osq[i] for i in idx]
+        self.nf_ = [nf_[i] for i in idx]
+        self.price_tick = [price_tick[i] for i in idx]
+        self.bar_minutes = int(bar_minutes)
         self.n = len(self.eth)
         self._twap = {}
         self._sqrt = {}
 
     def window(self, i):
-        return range(max(0, i - (WINDOW_MINUTES - 1)), i + 1)
+        back = (WINDOW_MINUTES - 1) // self.bar_minutes  # rows with t_i - 6 min <= t <= t_i on a bar_minutes grid
+        return range(max(0, i - back), i + 1)
 
     def twap_eth(self, i) -> Fraction:
         return self._tw("eth", self.eth, i)
